@@ -383,6 +383,31 @@ def replay_b(v):
             if got != want:
                 bad = "state after %s" % op["o"]
                 break
+        if (bad is None and all(sec["kind"] == "logger" for sec in cfgspec)
+                and [e["op"] for e in v["hist"][:len(cfgspec)]] == [{"o": "call", "f": k + 1, "h": 0} for k in range(len(cfgspec))]
+                and len(v["hist"]) >= len(cfgspec)):
+            # the same text through ZConfig.configureLoggers - twice, with the logging set-up taken down in between:
+            # each time every configured logger comes out as after calling its factories in order on a new load
+            import ZConfig
+            want = expected_obs(v["hist"][len(cfgspec) - 1]["obs"])
+            exp = {n: {"level": l["level"], "prop": l["prop"],
+                       "hs": [(want["handlers"][h - 1]["cls"], want["handlers"][h - 1]["level"]) for h in l["hs"]]}
+                   for n, l in want["loggers"].items()}
+            ids = []
+            cfg = facts = made = None
+            for attempt in (1, 2):
+                reset_logging(names)
+                gc.collect()
+                ZConfig.configureLoggers(text)
+                seen = {}
+                for n in exp:
+                    lg = logging.getLogger(n or None)
+                    seen[n] = {"level": lg.level, "prop": bool(lg.propagate),
+                               "hs": [(classify(h), h.level) for h in lg.handlers]}
+                if seen != exp:
+                    bad = "configureLoggers, call %d" % attempt
+                    step = len(cfgspec)
+                    break
         if bad is None:
             return None
         return {"clause": bad, "input": {"text": text, "ops": [e["op"] for e in v["hist"]], "failed_at": step},
